@@ -468,6 +468,85 @@ mutual
     | _ :: cs, i + 1, o => randomAt cs i o
 end
 
+/-! ### random_dna with `previous_dna` (categorical.py:527-551, space.py:212-226) -/
+
+/-- Python `value == c` for a node value and a candidate index: `2.0 == 2` holds. -/
+def valEqIdx (v : Val) (c : Nat) : Bool :=
+  match v with
+  | .int i => i == (c : Int)
+  | .flt n d => n == (c : Int) * (d : Int)
+  | _ => false
+
+/-- The previous DNAs handed to the chosen candidates: `None` where the previous choice differs,
+else `DNA(None, children=choice_dna.children, spec=candidates[choice])` (which binds, hence may
+raise). `none` = an assertion / binding error. -/
+def childPrevs (cands : List (List Point)) (k : Nat) (prev : Option DNA) (vs : List Nat) :
+    Option (List (Option DNA)) :=
+  match prev with
+  | none => some (vs.map fun _ => none)
+  | some pd =>
+    let cds := if k == 1 then [pd] else pd.children
+    if cds.length != k || vs.length != k then none
+    else
+      (cds.zip vs).mapM fun (cd, c) =>
+        if !valEqIdx cd.value c then some none
+        else
+          let sub := mk' .none cd.children
+          match cands[c]? with
+          | some sp => if bindS sp sub then some (some sub) else none
+          | none => none
+
+def randomSeqPrevWith (rat : Nat → Option DNA → List Draw → Option (DNA × List Draw)) :
+    List Nat → List (Option DNA) → List Draw → Option (List DNA × List Draw)
+  | [], _, o => some ([], o)
+  | c :: cs, pvs, o =>
+    match rat c (pvs.head?.getD none) o with
+    | none => none
+    | some (d, o') =>
+      (randomSeqPrevWith rat cs pvs.tail o').map fun (ds, o'') => (mk' (.int (c : Nat)) [d] :: ds, o'')
+
+/-- The previous DNAs of the elements of a space. -/
+def elemPrevs (n : Nat) (prev : Option DNA) : Option (List (Option DNA)) :=
+  match prev with
+  | none => some (List.replicate n none)
+  | some pd =>
+    if n == 1 then some [some pd]
+    else if pd.value != .none || pd.children.length != n then none
+    else some (pd.children.map some)
+
+mutual
+  def randomPrevP : Point → Option DNA → List Draw → Option (DNA × List Draw)
+    | .choices k cands distinct sorted _, prev, o =>
+      match drawChoices cands.length k distinct sorted o with
+      | none => none
+      | some (vs, o') =>
+        match childPrevs cands k prev vs with
+        | none => none
+        | some pvs =>
+          (randomSeqPrevWith (randomPrevAt cands) vs pvs o').map fun (ds, o'') => (mk' .none ds, o'')
+    | p, _, o => randomP p o
+  def randomPrevElems : List Point → List (Option DNA) → List Draw → Option (List DNA × List Draw)
+    | [], _, o => some ([], o)
+    | p :: ps, pvs, o =>
+      match randomPrevP p (pvs.head?.getD none) o with
+      | none => none
+      | some (d, o') => (randomPrevElems ps pvs.tail o').map fun (ds, o'') => (d :: ds, o'')
+  def randomPrevAt : List (List Point) → Nat → Option DNA → List Draw → Option (DNA × List Draw)
+    | [], _, _, _ => none
+    | c :: _, 0, prev, o =>
+      match elemPrevs c.length prev with
+      | none => none
+      | some pvs => (randomPrevElems c pvs o).map fun (ds, o') => (mk' .none ds, o')
+    | _ :: cs, i + 1, prev, o => randomPrevAt cs i prev o
+end
+
+def Spec.randomPrev : Spec → Option DNA → List Draw → Option (DNA × List Draw)
+  | .space s, prev, o =>
+    match elemPrevs s.length prev with
+    | none => none
+    | some pvs => (randomPrevElems s pvs o).map fun (ds, o') => (mk' .none ds, o')
+  | .point p, prev, o => randomPrevP p prev o
+
 def randomS (s : Space) (o : List Draw) : Option (DNA × List Draw) :=
   (randomElems s o).map fun (ds, o') => (mk' .none ds, o')
 
